@@ -134,6 +134,21 @@ def simFault (db : List (Graph P)) (batch shard f : Nat) (m : Int) : Nat → Sim
         else if s'.active then (acc, true)
         else simFault db batch shard f m fuel { s' with v := v' } (acc ++ stepOps (some fr, v'))
 
+/-- which path of the model a file name denotes -/
+def parseFPath (codec : String) (targets : List String) (name : String) : FPath :=
+  if name == ".retriever-checkpoint.json" then .ckpt
+  else if name == ".retriever-checkpoint.json.tmp" then .ckptTmp
+  else if name == "manifest.json" then .manifest
+  else if name == "manifest.json.tmp" then .manifestTmp
+  else
+    let cands : List Path := targets.flatMap (fun g => [Phase.nodes, Phase.edges].flatMap (fun ph => (List.range 99).map (fun k => (⟨g, ph, k + 1⟩ : Path))))
+    match cands.find? (fun p => Driver.C18.renderPath codec p == name) with
+    | some p => .frag p
+    | none =>
+      match cands.find? (fun p => Driver.C18.renderPath codec p ++ ".tmp" == name) with
+      | some p => .fragTmp p
+      | none => .stray name
+
 def fragPathsSorted (codec : String) (fs : FS P) : List (String × FPath) :=
   let frs := fs.filterMap (fun e => match e.1 with
     | .frag p => some (Driver.C18.renderPath codec p, FPath.frag p)
@@ -254,7 +269,12 @@ def step (st : St) (ts : List String) : St × String :=
         ({ st with fs := fs }, s!"refused {refusalStr c} | {summary codec fs}")
       | _, _ => (st, "bad-op")
     | _, _ => (st, "bad-op")
-  | ["stray", name] => ({ st with fs := st.fs.set (.stray name) .junk }, "ok")
+  | ["stray", name] =>
+    -- a foreign file: it lands on whatever path the name denotes (a known temporary, a fragment or fragment temp of a
+    -- target graph, the manifest, the checkpoint) or is simply a stray; `*.tmp` names read as temporaries
+    let path := parseFPath codec targets name
+    ({ st with fs := st.fs.set path (if name.endsWith ".tmp" then .tmp else .junk) }, "ok")
+  | ["straydir", _] => (st, "ok")   -- directories hold no data: the resume-time walk skips them
   | ["torn"] => (st, "ok")
   | [verb, i] =>
     if verb == "corrupt" || verb == "rmfrag" then
@@ -274,6 +294,29 @@ def step (st : St) (ts : List String) : St × String :=
       | some gs => ({ st with graphs := gs }, "ok")
       | none => (st, "bad-op")
     | none => (st, "bad-op")
+  | ["srcaddedge", g, id, s, t] =>
+    match id.toNat?, s.toNat?, t.toNat? with
+    | some id, some s, some t =>
+      match Driver.C18.updGraph st.graphs g (fun gr => { gr with edges := gr.edges ++ [⟨id, s, t, "R", "{}"⟩] }) with
+      | some gs => ({ st with graphs := gs }, "ok")
+      | none => (st, "bad-op")
+    | _, _, _ => (st, "bad-op")
+  | ["srcdelnode", g, id] =>
+    match id.toNat?, st.graphs.find? (·.name == g) with
+    | some id, some gr =>
+      if gr.nodes.any (·.id == id) then
+        let firstIdx := (gr.nodes.map (·.id)).idxOf id
+        ({ st with graphs := st.graphs.map (fun x => if x.name == g then { x with nodes := x.nodes.eraseIdx firstIdx } else x) }, "ok")
+      else (st, "none")
+    | _, _ => (st, "bad-op")
+  | ["srcdeledge", g, id] =>
+    match id.toNat?, st.graphs.find? (·.name == g) with
+    | some id, some gr =>
+      if gr.edges.any (·.id == id) then
+        let firstIdx := (gr.edges.map (·.id)).idxOf id
+        ({ st with graphs := st.graphs.map (fun x => if x.name == g then { x with edges := x.edges.eraseIdx firstIdx } else x) }, "ok")
+      else (st, "none")
+    | _, _ => (st, "bad-op")
   | ["final"] =>
     let ref := applyOps (dumpOps db ident) []
     (st, if sameFS st.fs ref then "same" else "differ")
